@@ -1,13 +1,15 @@
 _C07_SDK = ["common", "version", "resource", "metrics"]
 H("c07_hist_agg", "C07", "seq", ["harness/c07_histogram.cc"], sdk=_C07_SDK, cxxflags=["-fno-access-control"],
   args={"quick": ["--seam=agg", "--n=3", "--fulln=2", "--alphabet=full"], "thorough": ["--seam=agg", "--n=5", "--fulln=3", "--alphabet=full"]},
-  what="real Long/DoubleHistogramAggregation: 10 boundary lists x {int64,double} x {record_min_max on/off, no config}; every multiset of <= n values of the "
-       "per-list alphabet (0, denormal, DBL_MIN, 1, 1e300, 2^53, every boundary and its two neighbours), every assignment of its elements to three parts; "
+  what="real Long/DoubleHistogramAggregation: 13 boundary lists (incl. a duplicate boundary [1,1] and, for int64, [2^53] and [2^62]) x {int64,double} x "
+       "{record_min_max on/off, no config}; every multiset of <= n values of the per-list alphabet (0, denormal, DBL_MIN, 1, 1e300, 2^53, every boundary and its two "
+       "neighbours; integers above 2^53 that are not exact doubles, decided on exact integer arithmetic), every assignment of its elements to three parts; "
        "each part's point, the merge of the parts in three association orders and the single histogram of all values against a by-definition reference",
   design_ref="5/C07")
 H("c07_hist_meter", "C07", "seq", ["harness/c07_histogram.cc"], sdk=_C07_SDK, cxxflags=["-fno-access-control"],
-  args={"quick": ["--seam=meter", "--n=3", "--alphabet=core"], "thorough": ["--seam=meter", "--n=4", "--alphabet=core"]},
-  what="real MeterProvider + View (explicit boundaries, record_min_max) or default aggregation, UInt64/Double histogram instruments, 1-2 harness pull readers "
-       "(delta/cumulative): every multiset of <= n values split in every way over three collection cycles, every schedule of which reader collects after which cycle; "
+  args={"quick": ["--seam=meter", "--n=3", "--alphabet=core", "--viewn=2"], "thorough": ["--seam=meter", "--n=4", "--alphabet=core", "--viewn=4"]},
+  what="real MeterProvider + View in the forms View(kHistogram, config) with record_min_max on/off, View(kDefault, config), View(kHistogram, nullptr) or no view, "
+       "UInt64/Double histogram instruments, 1-2 harness pull readers (delta/cumulative): every multiset of <= n values (<= viewn for the two added View forms) split in "
+       "every way over three collection cycles, every schedule of which reader collects after which cycle; "
        "each collected point against the reference histogram of the values that reader is due",
   design_ref="5/C07")
